@@ -139,15 +139,17 @@ LEMMA(lemma_LineEnergy)
     VASSERT(r == 0.0 && ONE_ERROR(error), "LineEnergy: Z out of range is an error");
   } else if (line == KA_LINE || line == KB_LINE) {
     /* rate-weighted mean over exactly the member lines that have an energy */
-    double num = 0.0, den = 0.0;
+    double num = 0.0, den = 0.0, sumE = 0.0;
+    int nE = 0;
     int n = (line == KA_LINE) ? SPEC_NKA : SPEC_NKB;
     for (i = 0; i < n; i++) {
       int m = (line == KA_LINE) ? SPEC_KA[i] : SPEC_KB[i];
-      if (!(LE_CELL(Z, m) <= 0.0)) { den += RR_CELL(Z, m); num += LE_CELL(Z, m) * RR_CELL(Z, m); }
+      if (!(LE_CELL(Z, m) <= 0.0)) { nE++; sumE += LE_CELL(Z, m); den += RR_CELL(Z, m); num += LE_CELL(Z, m) * RR_CELL(Z, m); }
     }
     if (line == KA_LINE) VCANARY("LineEnergy KA"); else VCANARY("LineEnergy KB");
     if (den > 0.0) VASSERT(SAME(r, num / den) && NO_ERROR(error), "LineEnergy(KA/KB) = rate-weighted mean of exactly its members that have an energy");
-    else VASSERT(r == 0.0 && ONE_ERROR(error), "LineEnergy(KA/KB): no member with an energy and a rate is an error");
+    else if (nE > 0) VASSERT(SAME(r, sumE / nE) && NO_ERROR(error), "LineEnergy(KA/KB): no rates -> plain mean of the members that have an energy");
+    else VASSERT(r == 0.0 && ONE_ERROR(error), "LineEnergy(KA/KB): no member with an energy is an error");
   } else if (line == LA_LINE || d >= 0) {
     /* two-member groups: members from the macro name; a member without an energy does not take part */
     int m1 = (line == LA_LINE) ? SPEC_LA[1] : SPEC_DOUBLET[d].m1;
